@@ -63,7 +63,7 @@ CHECKS = {
  "C10": dict(
   engine="E2",
   technique="stateless depth-first exploration of thread interleavings of the real codec under a cooperative scheduler (preemption-bounded, iterated), with the real Go race detector as per-execution access monitor; not sampling",
-  text="14 driver scenarios (2-3 goroutines, 1-2 encode / decode / query-decode / NewHash calls each on one shared codec, fresh or warm, incl. the package-level default; types forced to share sub-schemas, enums, recursion, a failing reflection, prefixed enum spellings, same-type pairs) are executed under every interleaving at scheduling points (thread start, call boundaries and every sync / atomic operation of lib/j5schema, lib/j5reflect, internal/codec, lib/j5codec, lib/id62, reached by rewriting their sync imports to a shim at check time) with <=3 preemptions (quick; <=2 for 3-thread / 4-call scenarios) or without bound (thorough). Oracles per execution: no data race (real -race runtime, hand-off invisible to it), no panic, no deadlock, every call's result equals its result on a fresh codec alone. Default schedule replayed twice for determinism; a racing schedule is replayed twice before it is reported. Scenarios O-T: a type whose reflection fails used twice (and after a warm failing call), a message with every leaf kind (bytes scratch state) encoded and decoded by several threads, Any fields carrying only a proto payload; the free-running pass has a 240 s time-out (blocked goroutines are reported as deadlock).",
+  text="14 driver scenarios (2-3 goroutines, 1-2 encode / decode / query-decode / NewHash calls each on one shared codec, fresh or warm, incl. the package-level default; types forced to share sub-schemas, enums, recursion, a failing reflection, prefixed enum spellings, same-type pairs) are executed under every interleaving at scheduling points (thread start, call boundaries and every sync / atomic operation of lib/j5schema, lib/j5reflect, internal/codec, lib/j5codec, lib/id62, reached by rewriting their sync imports to a shim at check time) with <=3 preemptions (quick; <=2 for 3-thread / 4-call scenarios) or without bound (thorough). Oracles per execution: no data race (real -race runtime, hand-off invisible to it), no panic, no deadlock, every call's result equals its result on a fresh codec alone. Default schedule replayed twice for determinism; a racing schedule is replayed twice before it is reported. Scenarios O-T: a type whose reflection fails used twice (and after a warm failing call), a message with every leaf kind (bytes scratch state) encoded and decoded by several threads, Any fields carrying only a proto payload; the free-running pass has a 240 s time-out (blocked goroutines are reported as deadlock). Scenarios U / V: first concurrent use of a type with a flattened field; decoded Any payloads are kept by the caller and compared again after all later calls have finished (retained-result oracle, applied to every scenario).",
   note="trusted: Go race detector; sync operations outside the shimmed packages are not scheduling points; a free-running -race pass of the same bodies is reported as cross-check",
   design="3/C10"),
  "C02": dict(
@@ -75,43 +75,43 @@ CHECKS = {
  "C17": dict(
   engine="E1",
   technique=TECH_E1 + "; entity declarations crossed over 8 dimensions, compared with a reference expansion incl. annotations",
-  text="Every entity in the enumeration (6 name casings x 5 key sets x 3 data sets x 3 status sets x 3 event sets x 3 summary sets x 3 command sets x 4 query settings; all single and pairwise deviations from a default in quick, the small dimensions fully crossed in thorough) compiles, and the output equals the reference expansion: Keys/Data/Status/State/EventType/Event, query service with Get/List/Events (verbs, paths with primary keys in declaration order), command services, publish topic, one upsert topic per summary, all names derived from the entity name; plus annotations: same entity name and the right part on every component, primary-key markers and required-ness, tenant/foreign markers, flattened keys in State/Event, required wrapper fields, state_query / state_command service options and method roles, entity name on topics. Key sets include several markers on one key, shard keys before and after the primary key; command blocks that declare service options; types declared inside the entity block.",
+  text="Every entity in the enumeration (6 name casings x 5 key sets x 3 data sets x 3 status sets x 3 event sets x 3 summary sets x 3 command sets x 4 query settings; all single and pairwise deviations from a default in quick, the small dimensions fully crossed in thorough) compiles, and the output equals the reference expansion: Keys/Data/Status/State/EventType/Event, query service with Get/List/Events (verbs, paths with primary keys in declaration order), command services, publish topic, one upsert topic per summary, all names derived from the entity name; plus annotations: same entity name and the right part on every component, primary-key markers and required-ness, tenant/foreign markers, flattened keys in State/Event, required wrapper fields, state_query / state_command service options and method roles, entity name on topics. Key sets include several markers on one key, shard keys before and after the primary key; command blocks that declare service options; types declared inside the entity block. The default status filter of the List method is compared for every position of the default status.",
   note="shard keys not generated (undocumented path effect); 1 open known finding (adjacent capitals in the entity name)",
   design="3/C17"),
  "C07": dict(
   engine="E1",
   technique=TECH_E1 + "; all token sequences up to a length bound over two alphabets, all single-chunk mutations of valid files, one semantic error per class, and the full rule x type acceptance matrix; crash / hang oracle with subprocess isolation",
-  text="Rejecting side: every concatenation of <=3 (quick) / <=4 (thorough) symbols of the 40-symbol BCL alphabet and <=4 / <=5 symbols of a 22-symbol j5s keyword alphabet, every single-chunk deletion / swap / truncation / keyword insertion of ~60 rendered valid files, and ~45 semantic-error bundles (unknown type / ref / attribute / import, duplicates, required+optional, bad formats, service and topic shape errors, cross-file and cross-package cycles, proto syntax error next to a j5s file) are offered to CompilePackage and LintFile: no panic, no fatal, no hang, (files xor error), every error carries a position inside the offending file. Accepting side: every program of C02's families and the full matrix of ~900 rule declarations (each rule kind on each field type, alone in a file that contains nothing else) compiles and links. The accepting side also covers hand-written proto files mixed with j5s, external dependencies in sibling directories (t.v1 next to t/v1beta1, t/v10), names with acronyms and digits in every container, enum info fields, shard keys, types declared inside entity blocks, command blocks with options, the pipeline families.",
+  text="Rejecting side: every concatenation of <=3 (quick) / <=4 (thorough) symbols of the 40-symbol BCL alphabet and <=4 / <=5 symbols of a 22-symbol j5s keyword alphabet, every single-chunk deletion / swap / truncation / keyword insertion of ~60 rendered valid files, and ~45 semantic-error bundles (unknown type / ref / attribute / import, duplicates, required+optional, bad formats, service and topic shape errors, cross-file and cross-package cycles, proto syntax error next to a j5s file) are offered to CompilePackage and LintFile: no panic, no fatal, no hang, (files xor error), every error carries a position inside the offending file. Accepting side: every program of C02's families and the full matrix of ~900 rule declarations (each rule kind on each field type, alone in a file that contains nothing else) compiles and links. The accepting side also covers hand-written proto files mixed with j5s, external dependencies in sibling directories (t.v1 next to t/v1beta1, t/v10), names with acronyms and digits in every container, enum info fields, shard keys, types declared inside entity blocks, command blocks with options, the pipeline families. Source files whose base names sort around service/ and topic/, alone and next to other files.",
   note="token sequences share a PackageSet per 1500 cases, candidates are re-run alone before being reported; 12 open known findings (10 error classes without position, float rules unimplemented, inline type named like its parent)",
   design="3/C07"),
  "C13": dict(
   engine="E1",
   technique="explicit-state breadth-first search over append-edit histories (states = programs deduplicated by canonical source text, transitions = single append edits), invariant checked on every transition and against the seed; every state is compiled by the real pipeline",
-  text="From 10 seed programs (object, oneof, enum, nested inline types, multi-file / multi-package references, service, publish / reqres / upsert topics, entity) every history of <=2 (quick) / <=3 (thorough) append edits is explored: a field of 6 kinds (string, inline object, inline enum, array of ref, inline types named like existing top-level types) at the end of every object / oneof / request / response / topic message / entity data / event; an option, status, event, method or message at the end of every enum / entity / service / publish topic; 7 kinds of top-level declaration at the end of every file (incl. names an existing inline type already has). Invariant on every transition and against the seed: every message, field (name, number, type, type name, label, JSON name, optionality, oneof), enum value (name, number), service and method (types, verb, path) of the earlier program is present and identical. The wire identity of a method includes the google.api.http body; append kinds include enum options and statuses named *_UNSPECIFIED.",
+  text="From 10 seed programs (object, oneof, enum, nested inline types, multi-file / multi-package references, service, publish / reqres / upsert topics, entity) every history of <=2 (quick) / <=3 (thorough) append edits is explored: a field of 6 kinds (string, inline object, inline enum, array of ref, inline types named like existing top-level types) at the end of every object / oneof / request / response / topic message / entity data / event; an option, status, event, method or message at the end of every enum / entity / service / publish topic; 7 kinds of top-level declaration at the end of every file (incl. names an existing inline type already has). Invariant on every transition and against the seed: every message, field (name, number, type, type name, label, JSON name, optionality, oneof), enum value (name, number), service and method (types, verb, path) of the earlier program is present and identical. The wire identity of a method includes the google.api.http body; append kinds include enum options and statuses named *_UNSPECIFIED. Seeds include enums whose names and prefixes contain UNSPECIFIED.",
   note="successor states are rebuilt by replaying the history on a freshly built seed; programs the compiler rejects are left to C07",
   design="3/C13"),
  "C12": dict(
   engine="E1",
   technique=TECH_E1 + "; every rule declaration of the matrix x boundary candidate values, oracle = standard validator verdict == reference predicate",
-  text="~900 declarations (integers x 4 formats x minimum / maximum x each exclusive flag; strings x length bounds x pattern; keys plain / id62 / uuid / custom; bytes lengths; bool const; enum in / notIn incl. the explicit zero option; arrays x minItems / maxItems / uniqueItems x 4 item types with and without item rules; each x required), every one compiled alone in its file, are validated with protovalidate-go on dynamic messages for every candidate value around each induced boundary (below / at / above each bound, rune-counted string lengths with multi-byte runes, matching / non-matching patterns, valid / invalid id62 and uuid, defined / undefined enum numbers, list lengths with duplicates and invalid items, absent vs zero for required fields): the validator accepts iff the reference predicate (JSON-Schema semantics, inclusive unless exclusive=true) accepts. Also: map pair counts and rules of map values; enums declared in a hand-written proto file with numbers 1, 5, 10; every declaration next to a second declaration of the same family in one object (partner valid, or absent when it is an explicitly optional scalar).",
+  text="~900 declarations (integers x 4 formats x minimum / maximum x each exclusive flag; strings x length bounds x pattern; keys plain / id62 / uuid / custom; bytes lengths; bool const; enum in / notIn incl. the explicit zero option; arrays x minItems / maxItems / uniqueItems x 4 item types with and without item rules; each x required), every one compiled alone in its file, are validated with protovalidate-go on dynamic messages for every candidate value around each induced boundary (below / at / above each bound, rune-counted string lengths with multi-byte runes, matching / non-matching patterns, valid / invalid id62 and uuid, defined / undefined enum numbers, list lengths with duplicates and invalid items, absent vs zero for required fields): the validator accepts iff the reference predicate (JSON-Schema semantics, inclusive unless exclusive=true) accepts. Also: map pair counts and rules of map values; enums declared in a hand-written proto file with numbers 1, 5, 10; every declaration next to a second declaration of the same family in one object (partner valid, or absent when it is an explicitly optional scalar). Explicitly optional fields (a present zero value is then a candidate), zero options spelled with the enum prefix, string formats next to length rules.",
   note="the proto3 zero value of a non-required field is treated as absent and not used as a candidate; protovalidate-go v0.9.2 is the trusted validator",
   design="3/C12"),
  "C04": dict(
   engine="E1",
   technique=TECH_E1 + "; programs of the schema families compiled and reflected back, compared with an expected schema built from the program model; memory path vs text path vs cache path",
-  text="~1350 programs (single-field matrix, nesting with name overrides, enums, 10 reference forms x 3 kinds, descriptions / flatten / foreign keys, nested-vs-top-level name collisions, and the full rule matrix incl. list rules, date / decimal / timestamp / float rules and large INT64 literals) are compiled; every object, oneof and enum reflected by SchemaSetFromFiles equals the expected schema (property names, order, proto field paths, types and formats, required / optional, flatten, key formats and entity keys, descriptions, validation and list rules with inclusivity); SchemaCache.Schema gives the same schema in three query orders; and reflecting the printed .proto text re-parsed with protocompile gives exactly the same schemas. Also: Keys / Data objects of every entity (primary / foreign / tenant markers, several on one key, shard keys), enum info fields, inline descriptions after nested messages, empty oneofs, string formats, any options, list rules of oneof fields and of array items, map pair counts / value rules / ext.singleForm, uniqueness and counts on arrays of every item kind, enums declared in hand-written proto files with gaps in their numbers.",
+  text="~1350 programs (single-field matrix, nesting with name overrides, enums, 10 reference forms x 3 kinds, descriptions / flatten / foreign keys, nested-vs-top-level name collisions, and the full rule matrix incl. list rules, date / decimal / timestamp / float rules and large INT64 literals) are compiled; every object, oneof and enum reflected by SchemaSetFromFiles equals the expected schema (property names, order, proto field paths, types and formats, required / optional, flatten, key formats and entity keys, descriptions, validation and list rules with inclusivity); SchemaCache.Schema gives the same schema in three query orders; and reflecting the printed .proto text re-parsed with protocompile gives exactly the same schemas. Also: Keys / Data objects of every entity (primary / foreign / tenant markers, several on one key, shard keys), enum info fields, inline descriptions after nested messages, empty oneofs, string formats, any options, list rules of oneof fields and of array items, map pair counts / value rules / ext.singleForm, uniqueness and counts on arrays of every item kind, enums declared in hand-written proto files with gaps in their numbers. Enum names and prefixes containing UNSPECIFIED; a first option that claims the zero slot by suffix.",
   note="empty rule / ext messages == absent, exclusive=false == absent; 4 open known findings (plain key in array / map, id62 / uuid keys in maps)",
   design="3/C04"),
  "C05": dict(
   engine="E1",
   technique=TECH_E1 + "; every file the compiler emits for the program families, every hand-written repo proto and a raw option-value matrix are printed, re-parsed with protocompile and compared by an order-insensitive descriptor dump; second print must be byte-identical",
-  text="~2450 bundles: all files compiled from C02's families, the rule matrix, annotations and 8 shape programs (self / mutual references, nested types shadowing top-level ones, overlapping package prefixes, optional message fields, multi-paragraph / unicode descriptions, patterns with escapes); all 37 hand-written protos under /repo/proto; and 7 option hosts x 55 extension values (strings with every escape / control / non-BMP rune, integer and float boundaries, +-inf, NaN, bytes, enums, nested / empty / repeated messages, repeated scalars, maps). Oracle: the printed text parses and links; package, imports, messages and nesting, fields (name, number, kind, type, cardinality, proto3 optional, JSON name, real-oneof membership, map types), enums and values, services and methods, every option value (re-serialised through one resolver) and leading comments (exact) are equal; printing the re-parsed file reproduces the text. Also compared for compiled files: declaration order within each kind of child; option strings with control characters followed by hex digits; siblings of which only some carry a description; field names whose JSON name protoc would not derive (byUserID); external dependencies are linked from their rendered text.",
+  text="~2450 bundles: all files compiled from C02's families, the rule matrix, annotations and 8 shape programs (self / mutual references, nested types shadowing top-level ones, overlapping package prefixes, optional message fields, multi-paragraph / unicode descriptions, patterns with escapes); all 37 hand-written protos under /repo/proto; and 7 option hosts x 55 extension values (strings with every escape / control / non-BMP rune, integer and float boundaries, +-inf, NaN, bytes, enums, nested / empty / repeated messages, repeated scalars, maps). Oracle: the printed text parses and links; package, imports, messages and nesting, fields (name, number, kind, type, cardinality, proto3 optional, JSON name, real-oneof membership, map types), enums and values, services and methods, every option value (re-serialised through one resolver) and leading comments (exact) are equal; printing the re-parsed file reproduces the text. Also compared for compiled files: declaration order within each kind of child; option strings with control characters followed by hex digits; siblings of which only some carry a description; field names whose JSON name protoc would not derive (byUserID); external dependencies are linked from their rendered text. A family of hand-written proto shapes (leading comments with blank lines at the start, in the middle and at the end, detached comments, nested declarations).",
   note="declaration order is not compared; 1 open known finding (blank-line layout of hand-written protos not stable on the second print)",
   design="3/C05"),
  "C16": dict(
   engine="E1",
   technique=TECH_E1 + "; every program of the service / topic / entity / mixed / pipeline families is pushed through the whole chain compile -> print -> ReadFSImage -> APIFromImage -> APIFromSource -> J5 JSON -> BuildSwagger -> json.Marshal, each case in a crash / stack-overflow / hang isolated worker",
-  text="~800 programs: services (5 verbs x 6 path patterns x response / empty response / no response x 3 basePath forms), topics, entities (all single and pairwise deviations of the entity model), a multi-file package, every field type x {body, query, response, path} x {plain, array, map}, one list rule on one field x 13 field types x {top, nested, below a oneof arm, in a recursive item}, self- and mutually-recursive objects and oneofs in request, response, list items and entity data. Oracle: no stage errors, panics, overflows the stack or hangs; the client API JSON is valid; the client API lists exactly the declared methods (incl. the entity query and command services) with the declared verb and path; path / query / body split as the verb dictates; every path parameter occurs in the path; state entities carry name, primary key, events, state schema; every schema referenced anywhere in the client API is present in it. Also: names with acronyms and digits for topics, messages, methods, services and fields; cycles that only pass through oneofs; request properties whose names are prefixes of path parameters; entity keys named like the generated request fields.",
+  text="~800 programs: services (5 verbs x 6 path patterns x response / empty response / no response x 3 basePath forms), topics, entities (all single and pairwise deviations of the entity model), a multi-file package, every field type x {body, query, response, path} x {plain, array, map}, one list rule on one field x 13 field types x {top, nested, below a oneof arm, in a recursive item}, self- and mutually-recursive objects and oneofs in request, response, list items and entity data. Oracle: no stage errors, panics, overflows the stack or hangs; the client API JSON is valid; the client API lists exactly the declared methods (incl. the entity query and command services) with the declared verb and path; path / query / body split as the verb dictates; every path parameter occurs in the path; state entities carry name, primary key, events, state schema; every schema referenced anywhere in the client API is present in it. Also: names with acronyms and digits for topics, messages, methods, services and fields; cycles that only pass through oneofs; request properties whose names are prefixes of path parameters; entity keys named like the generated request fields. Path parameters with acronym names and path parameters of referenced types on methods that also have a body.",
   note="which fields a list request offers is recorded as an outcome class, not judged (not part of the statement)",
   design="3/C16"),
  "C15": dict(
